@@ -32,10 +32,8 @@ def _ov_inc(ctx, q, qdir, overlays):
     # headers under parsec/include are reached as "parsec/xxx.h" through -I<repo>/parsec/include: make the overlay
     # copies (patches and mutants) visible the same way
     import os
-    for o in list(overlays):
-        d = os.path.join(o, "parsec", "include")
-        if os.path.isdir(d) and d not in overlays:
-            overlays.insert(0, d)
+    new = [os.path.join(o, "parsec", "include") for o in overlays]
+    overlays[:0] = [d for d in new if os.path.isdir(d) and d not in overlays]
 
 
 WEAK2 = [(0, 1, 0), (1, 1, 0), (1, 0, 0)]                      # d1<d2, d1==d2, d1>d2 (d3 unused)
